@@ -208,8 +208,8 @@ def main_check(check_name, tier, replay=None):
             specs.append(sp)
         # ... and a few with the interpreter's optimisation flag (-O: assert statements are not executed) and with warnings
         # turned into errors (-W error::Warning for the library's own warning classes is what strict test suites use)
-        for j, sp in enumerate([dict(s) for s in base[1::step][:max(2, k // 2)]] or [dict(base[0])]):
-            sp["python_flags"] = ["-O"] if j % 2 == 0 else ["-W", "error"]
+        for j, sp in enumerate([dict(base[(1 + jj * step) % len(base)]) for jj in range(max(3, k // 2))]):
+            sp["python_flags"] = (["-O"], ["-W", "error"], ["-bb"])[j % 3]      # (-bb: comparing bytes with str raises BytesWarning)
             specs.append(sp)
     workers = min(len(specs), getattr(mod, "WORKERS", {}).get(tier, 4 if tier == "quick" else 16))
     timeout_s = getattr(mod, "WATCHDOG", {}).get(tier, 600 if tier == "quick" else 3600)
